@@ -32,7 +32,8 @@ def flagsNow : Flags :=
   { keyByRewrite := Generated.C10.keyByRewrite
     likeStarGuarded := Generated.C10.likeStarGuarded
     rxLitPrefix := Generated.C10.rxLitPrefix
-    lutCumulative := Generated.C10.lutCumulative }
+    lutCumulative := Generated.C10.lutCumulative
+    prepareOnEmpty := Generated.C10.prepareOnEmpty }
 
 /-! ## The write path establishes the well-formed index -/
 
@@ -293,6 +294,15 @@ theorem tie_forward_lut :
     (Generated.C10.lutAssigns = ["lut[0] = 0", "lut[idx + 1] = lut[idx] + lowContainer.GetCardinality()"] ∧
       Generated.C10.lutCumulative = true) := by decide
 
+/-- `PrepareFlush` of the three stores: swap on `immutable == nil` only (flag false), or also on an
+empty immutable table (flag true) -/
+theorem tie_prepare_flush :
+    (Generated.C10.prepareConds = ["s.immutable == nil", "ii.immutable == nil", "fi.immutable == nil"] ∧
+      Generated.C10.prepareOnEmpty = false) ∨
+    (Generated.C10.prepareConds = ["s.immutable == nil || s.immutable.IsEmpty()",
+        "ii.immutable == nil || ii.immutable.IsEmpty()", "fi.immutable == nil || fi.immutable.IsEmpty()"] ∧
+      Generated.C10.prepareOnEmpty = true) := by decide
+
 /-! ## Non-vacuity -/
 
 /-- Go's behaviour on literal patterns with an optional `^`: `^x` matches values starting with `x`
@@ -356,7 +366,8 @@ example (F : Flags) : NoCollision F (.or (.atom (.like kHost [97, 98, 42])) (.no
 namespace Neg
 
 /-- the facts of the unchanged tree -/
-def flags0 : Flags := { keyByRewrite := true, likeStarGuarded := false, rxLitPrefix := true, lutCumulative := false }
+def flags0 : Flags :=
+  { keyByRewrite := true, likeStarGuarded := false, rxLitPrefix := true, lutCumulative := false, prepareOnEmpty := true }
 
 def twoSeries : State :=
   run flags0 [.write mCpu [(kHost, [97])], .write mCpu [(kHost, [98]), (kZone, [49])]] State.init
